@@ -1,16 +1,52 @@
 # Per-property job tables for ./check. Each job is one `go test` binary
 # invocation (optionally sharded). See DESIGN.md §2.
+NOT_APPLICABLE = {}
+HOOK_COMMITS = []
+
 T = lambda q, t: {"quick": q, "thorough": t}
+
+LP_ASSUME = [
+    "RawJSON / json.RawMessage / custom marshal results generated as valid one-line JSON (documented precondition)",
+    "time layouts contain no quote, backslash or control characters; times within year 1..9999 (UnixNano range for UNIXMS/MICRO/NANO); DurationFieldUnit > 0",
+    "programs are those of the LP language (DESIGN.md §3.1); settings are package globals so programs run sequentially per process",
+    "trusted: Go toolchain/runtime, encoding/json, strconv, net, time as references; rapid; harness jsonref (cross-checked with encoding/json.Valid)",
+]
 
 PROPS = {
     "C01": {
         "jobs": [
-            {"name": "rapid", "pkg": "./c01", "run": "^TestRapidPrograms$", "rapid": T(3000, 20000), "shards": T(1, 16), "replay": "^TestReplay$"},
+            {"name": "rapid", "pkg": "./c01", "run": "^TestRapidPrograms$", "rapid": T(10000, 20000), "shards": T(1, 8), "replay": "^TestReplay$"},
+            {"name": "trees", "pkg": "./c01", "run": "^TestRapidTrees$", "rapid": T(10000, 20000), "shards": T(1, 8)},
+            {"name": "exhaustive", "pkg": "./c01", "run": "^(TestEmptyShapes|TestRegress)$"},
+            {"name": "sigma", "pkg": "./c01", "run": "^TestSigmaExhaustive$", "shards": T(1, 16)},
         ],
-        "assumptions": [
-            "RawJSON / json.RawMessage / custom marshal results generated as valid one-line JSON (documented precondition)",
-            "time layouts contain no quote, backslash or control characters (stated exclusion)",
-            "encoding/json.Valid used only as a cross-check of the harness's own strict validator",
+        "assumptions": LP_ASSUME,
+        "claim": {"ref": "DESIGN.md §5 C01", "technique": "property-based testing (rapid) over a logging-program language + exhaustive class-alphabet strings and empty shapes; oracle: independent strict RFC 8259/UTF-8/single-line validator",
+                  "text": "Generated-input search: every Write of every generated logging program (chains and trees of derived loggers, every field type and entry point, all global settings) is validated by an independent strict JSON recogniser; plus exhaustive enumeration of class-alphabet strings and of all empty/nil shapes. Held on everything explored; absence is not established.",
+                  "note": "Trusts Go toolchain, rapid, harness jsonref (cross-checked against encoding/json.Valid). Generator restricted to the statement's exclusions (valid RawJSON/custom marshal output, sane time layouts)."},
+    },
+    "C02": {
+        "jobs": [
+            {"name": "float32", "pkg": "./c02", "run": "^TestFloat32Sweep$", "shards": T(1, 16), "timeout": T(600, 3600)},
+            {"name": "grids", "pkg": "./c02", "run": "^(TestIntegerBoundaries|TestTimeAndDurationGrid|TestRegress)$"},
+            {"name": "sigma", "pkg": "./c02", "run": "^TestSigmaStrings$", "shards": T(1, 16)},
+            {"name": "rapid-values", "pkg": "./c02", "run": "^TestRapidValues$", "rapid": T(4000, 30000), "shards": T(1, 8)},
+            {"name": "rapid-programs", "pkg": "./c02", "run": "^TestRapidPrograms$", "rapid": T(3000, 20000), "shards": T(1, 8), "replay": "^TestReplay$"},
         ],
+        "assumptions": LP_ASSUME + ["value equality is checked at FloatingPointPrecision -1 and with the default ErrorMarshalFunc (the statement's quantifier)"],
+        "claim": {"ref": "DESIGN.md §5 C02", "technique": "bounded-exhaustive enumeration (float32 patterns, integer boundaries, class-alphabet strings, time/duration grids) + rapid; oracles: expected-value model built on encoding/json/strconv/time, raw-byte identity across entry points",
+                  "text": "Generated-input search: each (type, value) is logged through every entry point that can carry it; every occurrence must match an independent expected-value model (encoding/json float text and round-trip, exact integers, U+FFFD text, time/duration per settings) and all occurrences must be byte-identical. float32 patterns are swept exhaustively in the thorough tier (stratified in quick). Held on everything explored.",
+                  "note": "Trusts encoding/json, strconv, time, net as references. Value equality at FloatingPointPrecision -1 and default ErrorMarshalFunc; pre-1970 sub-unit instants under UNIXMS/MICRO accept truncation or floor."},
+    },
+    "C03": {
+        "jobs": [
+            {"name": "rapid", "pkg": "./c03", "run": "^TestRapidChains$", "rapid": T(10000, 30000), "shards": T(1, 8), "replay": "^TestReplay$"},
+            {"name": "trees", "pkg": "./c03", "run": "^TestRapidTrees$", "rapid": T(15000, 30000), "shards": T(1, 8)},
+            {"name": "regress", "pkg": "./c03", "run": "^TestRegress$"},
+        ],
+        "assumptions": LP_ASSUME + ["hooks of the LP language: add fields, discard, read GetCtx, no-op; wrapped directly, as HookFunc or as LevelHook"],
+        "claim": {"ref": "DESIGN.md §5 C03", "technique": "property-based testing (rapid) over derivation chains/trees with unique keys; oracle: logger-tree reference model on the ordered key sequence + hook invocation log",
+                  "text": "Generated-input search: derivation chains and trees (With/Hook/Level/Output/Sample/UpdateContext, Context.Timestamp/Caller) with hook lists and all finalizers; the emitted key sequence must equal the reference model's (level, context, event, hook fields, message) and the hook invocation log (id, level, message) must equal the model's. Held on everything explored.",
+                  "note": "Trusts the harness's tree model (validated against 10^5 programs on the unchanged tree) and jsonref. Values other than level/message are C02's concern and are not compared here; unparseable lines are left to C01."},
     },
 }
